@@ -73,7 +73,7 @@ def _run(case):
         return [an.anonymize(l) for l in lines]
     from netconan.anonymize_files import FileAnonymizer
 
-    fa = FileAnonymizer(anon_pwd=False, anon_ip=False, salt=salt, sensitive_words=list(words), reserved_words=list(user) if user else None)
+    fa = FileAnonymizer(anon_pwd=bool(case.get("pwd")), anon_ip=False, salt=salt, sensitive_words=list(words), reserved_words=list(user) if user else None)
     out = core.run_io(fa, "".join(l + "\n" for l in lines))
     return out.split("\n")[:-1]
 
@@ -92,7 +92,7 @@ def check_words(case, ev):
     reserved_exact = set(_builtin()) | set(user)
     ov = overlapping(words)
     nt = ov
-    cls = ["via-" + case["via"]] + (["overlapping-list"] if ov else []) + (["user-reserved"] if user else [])
+    cls = ["via-" + case["via"]] + (["overlapping-list"] if ov else []) + (["user-reserved"] if user else []) + (["with-password-stage"] if case.get("pwd") else [])
     if len(outs) != len(lines):
         return Finding("words/line-count", "%d lines in, %d out" % (len(lines), len(outs)), case)
     f = None
@@ -111,6 +111,8 @@ def check_words(case, ev):
                         "words=%r reserved=%r salt=%r line %r -> %r: %r survives in token %r" % (words, user, salt, line, out, w, m.group(0)),
                         case,
                     )
+        if case.get("pwd"):
+            continue  # with the password stage on only the survival oracle applies (secrets change tokens)
         if len(itoks) != len(otoks):
             if f is None:
                 f = Finding("words/token-count-changed", "line %r -> %r" % (line, out), case)
@@ -282,7 +284,14 @@ def _case(draw):
                 toks.append(wc)
         lead = draw(st.sampled_from(["", " ", "   "]))
         lines.append(lead + "".join(t + draw(_ws) for t in toks).rstrip(" \t") + draw(st.sampled_from(["", "", " "])))
-    return {"words": words, "reserved": user, "salt": draw(st.one_of(st.text(max_size=5), st.sampled_from(["", "s"]))), "lines": lines, "via": draw(st.sampled_from(["direct", "direct", "io"]))}
+    via = draw(st.sampled_from(["direct", "direct", "io"]))
+    pwd = False
+    if via == "io" and draw(st.integers(0, 2)) == 0:
+        # -p and -w together: listed words in front of (or behind) recognised secret forms
+        pwd = True
+        tails = ["cable shared-secret Zq9xWv", "wpa-psk ascii 7 ABCDEF0123", "ldap-login-password Pq7zz", "key-string 7 0822455D0A16", "password Hx9Gk2Lm", "snmp-server community Qq7Zz ro"]
+        lines = [l.rstrip() + " " + draw(st.sampled_from(tails)) for l in lines]
+    return {"words": words, "reserved": user, "salt": draw(st.one_of(st.text(max_size=5), st.sampled_from(["", "s"]))), "lines": lines, "via": via, "pwd": pwd}
 
 
 _FORMS = ["password {}", "snmp-server community {}", "enable secret {}", " key {}", "username admin password {}", "set snmp community {}"]
